@@ -11,7 +11,7 @@ Driver for C31 (line protocol, `-` = empty byte string, all strings hex encoded)
 * `trim <hex>`                     → hex of `strings.TrimSpace`
 * `utf8 <hex>`                     → `1` | `0`
 * `codes`                          → accepted received close codes in 0…65535 as ranges
-* `up pm=<n> m=<hex> host=<hex> sub=nil|<hex>,… comp=0|1 noh1=0|1 co=nil|0|1 oh=err|<hex> H <name>:<value>…`
+* `up pm=<n> m=<hex> host=<hex> sub=nil|<hex>,… comp=0|1 noh1=0|1 co=nil|0|1|samehost oh=err|<hex> H <name>:<value>…`
                                    → `reject <status> <reason>` | `PANIC` | `h1 <response hex>` | `h2 sub=<hex> ext=0|1`
 * `reset`                          → `ok` (fresh server connection)
 * `send <code> <reason>`           → `tooLong|already|wrote <frame>` ` cc=<code>,<incoming>`
@@ -71,12 +71,14 @@ def stepUp (ws : List String) : String :=
     let comp ← (kv kvs "comp").bind b01
     let noh1 ← (kv kvs "noh1").bind b01
     let coS ← kv kvs "co"
-    let co ← if coS == "nil" then some none else (b01 coS).map some
     let ohS ← kv kvs "oh"
     let oh ← if ohS == "err" then some none else (unhex ohS).map some
     let headers ← parseHeaders hs
-    let cfg : Config := { subprotocols := sub, enableCompression := comp, disableHTTP1Upgrade := noh1, checkOrigin := co }
     let req : Request := { protoMajor := pm, method := m, host := host, headers := headers, originHost := oh }
+    -- `co=samehost`: the CheckOrigin centrifuge's WebsocketHandler installs by default
+    let co ← if coS == "nil" then some none else if coS == "samehost" then some (some (checkSameHost req))
+             else (b01 coS).map some
+    let cfg : Config := { subprotocols := sub, enableCompression := comp, disableHTTP1Upgrade := noh1, checkOrigin := co }
     pure <| match upgrade cfg req with
       | .reject st why => s!"reject {st} {showReason why}"
       | .panic => "PANIC"
